@@ -300,6 +300,22 @@ class Run:
     def finish(self):
         cov = self.coverage
         cov["samples"] = cov["samples"][:12]
+        # a check that is silent because it lost its inputs is not a check: compare what was covered with the floor recorded on the pinned
+        # tree (coverage_floor.json, written by tools/floor.py). Far below it (less than half) with nothing else reported = the extraction,
+        # generator or translator silently dropped most of the work.
+        try:
+            floor = json.load(open(os.path.join(VERIF, "coverage_floor.json"))).get(f"{self.pid}.{self.tier}", {})
+        except Exception:       # noqa
+            floor = {}
+        if not self.violations:
+            for name in ("evaluations", "obligations"):
+                want, got = floor.get(name), cov.get(name) or 0
+                if want and got < want * 0.5:
+                    self.violation("broken-correspondence", {"kind": "coverage-collapsed", "counter": name},
+                                   f"this run covered {got} {name}, the same check on the pinned tree covers {want}: most of the inputs were lost silently "
+                                   f"(extraction, generator or translator no longer fits the source)", {"floor": floor, "coverage": {k: cov.get(k) for k in ("evaluations", "obligations", "discharged")}},
+                                   found_input=False)
+                    break
         ev = {"property_id": self.pid, "tier": self.tier, "seed": self.seed, "level": "proof",
               "coverage": cov, "assumptions": self.assumptions,
               "wall_s": round(time.time() - self.t0, 2), "violations": len(self.violations),
